@@ -58,6 +58,16 @@ class C05(LineCheck):
             err = mod.main()
         return ("leaf translator failed (tie broken): " + err) if err else None
 
+    def proofs(self, ctx):
+        st = LineCheck.proofs(self, ctx)
+        if st["broken"] and "RadixLink" in st["broken"]:
+            st["broken"] = ("theorem C05_radix_growth_test_is_the_code (Timer/RadixLink.v: growth_test_is_grow_test / growth_test_is_the_code) "
+                            "no longer holds: the condition of the growth test `if (...)` of iv_timer_get_node in the current src/iv_timer.c, as "
+                            "translated by gen/c2gallina.py into Gen/LeafTimer.v, is not the model's grow_test any more (e.g. the guard "
+                            "`(st->rat_depth + 1) * IV_TIMER_SPLIT_BITS < 8 * (int)sizeof(index)` is missing: undefined shift by 35 at rat_depth 4, "
+                            "i.e. from 2^28 timers on).  " + st["broken"])
+        return st
+
     def build(self, ctx):
         d = os.path.join(ctx.work, "b")
         self.d = d
